@@ -21,7 +21,11 @@ def entry_terms(ctx):
     for name, params in (("clean", ["content", "delimiters", "config"]), ("list", ["content", "delimiters", "config", "format"]),
                          ("list_all", ["content", "delimiters", "config", "format"])):
         b = P.fn("chiritori::" + name)
-        outs = A.Interp(P).explore(lambda J, b=b, params=params: J.call_fn_body(b, [A.Sym(p) for p in params]))
+        # private helpers of the entry module are inlined (a shared tail factored out of list / list_all is still the
+        # same pipeline); build_remover / build_formatters stay opaque: they are the anchors the normal forms are compared on
+        helpers = [x["def_path"] for x in P.user_bodies() if x["kind"] == "Fn" and fshort(x).startswith("chiritori::") and "Restricted" in (x.get("vis") or "")
+                   and fshort(x) not in ("chiritori::build_remover", "chiritori::build_formatters")]
+        outs = A.Interp(P, inline=helpers).explore(lambda J, b=b, params=params: J.call_fn_body(b, [A.Sym(p) for p in params]))
         terms = {}
         for o in outs:
             v = o["value"]
